@@ -237,6 +237,8 @@ func runC51(c *Ctx) {
 		c.Check(sum, r5, ec.Name(), ec.Decl.Pos(), "the trailer is the hasher's Sum")
 	}
 	c.Floor(r5, 2)
+	checkPositionSpaces(c)
+	c.Floor("position-spaces", 8)
 }
 
 func usedInPkgFile(p *Prog, pk interface{ }, obj types.Object, base string) bool {
